@@ -1376,7 +1376,7 @@ impl StoryState {
         // current/default flow
         else {
             self.named_flows = None;
-            self.current_flow.name = "default".to_owned(); // Replace with the default flow name
+            self.current_flow.name = DEFAULT_FLOW_NAME.to_owned();
             self.current_flow.callstack.borrow_mut().load_json(
                 &self.main_content_container,
                 j_object
